@@ -157,6 +157,27 @@ def run_c13(ctx):
                 "distinct = distinct (load pattern, withheld node, lost-first-request)")
     ctx.assumptions = ["fault-free period: no crashes, one tick of latency, no view changes expected", "observation window of 400 ticks"]
     hs = build_harness(ctx)
+    # the composition Mempool || Consensus (Node.tla): safety (C08, C12) and end-to-end liveness under fairness, with one lost
+    # broadcast, batch sync and retry; the four attack models must be rejected (non-vacuity)
+    base = dict(N="3", Stake="<- NS3", Txs="{1}", MaxRound="3", Weak="{}")
+    ninv = ["ReleaseHasQuorum", "OwnProposedIsAvailable", "VoteHasPayload", "CommitHasPayload"]
+    cfg = write_cfg(ctx, "node.cfg", "FairSpec", base, invariants=ninv, properties=["EndToEnd", "NoStall"])
+    r = model_job(ctx, "Node.tla: composition, safety + end-to-end liveness under fairness", "MC_Node.tla", cfg, True, json.dumps(base), workers=6, timeout=1200)
+    if r["violated"]:
+        ctx.violation("Node.tla violates %s" % r["violated"], "model", {"tlc_output_tail": r["out"][-5000:]})
+    rejected = {}
+    for w, expect in [("no_quorum_wait", "OwnProposedIsAvailable"), ("vote_blind", "VoteHasPayload"), ("no_announce", "Temporal"), ("no_batch_sync", "Temporal")]:
+        c = dict(base, Weak='{"%s"}' % w)
+        cfg = write_cfg(ctx, "node-%s.cfg" % w, "FairSpec", c, invariants=ninv, properties=["EndToEnd", "NoStall"])
+        rr = tlc(ctx, "MC_Node.tla", cfg, workers=4, timeout=900, name="node-" + w)
+        rejected[w] = rr["violated"]
+        if not any(expect in v for v in rr["violated"]):
+            raise ToolError("vacuity guard: attack model %s of Node.tla is not rejected (got %s)" % (w, rr["violated"]))
+    ctx.extra["node_attack_models_rejected"] = rejected
+    if not q:
+        c2 = dict(base, Txs="{1, 2}")
+        cfg = write_cfg(ctx, "node2.cfg", "Spec", c2, invariants=ninv)
+        model_job(ctx, "Node.tla: two transactions, safety (time-boxed)", "MC_Node.tla", cfg, True, json.dumps(c2), workers=10, timeout=1500)
     r = simulate(ctx, "n4-honest", dict(Honest="{0,1,2,3}", Variants="{0}"), 30 if q else 600, 300)
     if r["violated"]:
         ctx.violation("HotStuff.tla violates %s (fault-free closed system)" % r["violated"], "model", {"tlc_output_tail": r["out"][-5000:]})
